@@ -78,8 +78,12 @@ def run(tier, seed):
                         if key in sentinels: served = [fstree.comps(os.path.realpath(sentinels[key]))]
                         elif key == "": served = [fstree.comps(root)]     # an empty file: attributed to the root (cannot leak)
                     elif ci[0] == "listing":
-                        target = os.path.realpath(os.path.join(root, urlimpl_unquote(req.path).lstrip("/")))
-                        served = [fstree.comps(target)]
+                        # the directory shown is identified by the marker file name that only it contains
+                        body = out.body if isinstance(out.body, str) else ""
+                        for rel, kind, payload in nodes:
+                            if kind == "f" and "/zz-dirid-" in rel and (" " + os.path.basename(rel) + " ") in body:
+                                served = [fstree.comps(os.path.realpath(os.path.dirname(os.path.join(real_tmp, rel))))]
+                                break
                     else:
                         text = str(out) if isinstance(out, Exception) else (out.meta + (out.body or "" if isinstance(out.body, str) else ""))
                         leaks = any(s in text for s in sentinels)
